@@ -1,4 +1,5 @@
 import JSight.ProtocolProofs
+import JSight.PoolRace
 /-!
 # C12 — A loaded schema can be shared by concurrent goroutines: the protocol part
 
@@ -7,9 +8,13 @@ goroutine that finds another one inside `f` blocks (the Once mutex); steps are i
 arbitrary schedule (a list of goroutine indices of any length, with repetitions and starvation).
 `C12_once_exactly_once`: under every schedule the compile function is started at most once and every
 goroutine that has returned got the same value, although the value `f g` would differ by who computes it.
-After compilation the schema is only read and `Example()` hands out copies (C11): the rest of the
-property — no data races in the real memory model, every result equal to the sequential run — is
-exercised under the race detector (harness `c12-concurrent`), not provable here.
+Model `PoolRace`: any number of goroutines call `Example()` on the shared object; each takes a buffer from
+the shared pool (or allocates one), writes its text, copies the result out, puts the buffer back; the steps
+are interleaved by an arbitrary schedule. `C12_pool_result_is_own`: under every schedule every goroutine's
+result is its own text — what the sequential run gives (invariant: held buffers are distinct and not in the
+pool). `C12_pool_pinned_overwritten`: handing out the pooled buffer itself (the pinned tree) fails.
+After compilation the schema is otherwise only read: the rest of the property — no data races in the real
+memory model — is exercised under the race detector (harness `c12-concurrent`), not provable here.
 -/
 namespace Props.C12
 open Protocol
@@ -18,6 +23,21 @@ theorem C12_once_exactly_once (f : Nat → Nat) (n : Nat) (sched : List Nat) :
     ((Race.init n).run f sched).count ≤ 1 ∧
     ∀ p ∈ ((Race.init n).run f sched).res, ∀ q ∈ ((Race.init n).run f sched).res, p.2 = q.2 :=
   race_once f n sched
+
+/-- concurrent `Example()` over the shared buffer pool: every schedule, every goroutine gets its own text -/
+theorem C12_pool_result_is_own (inp : Nat → List Nat) (sched : List Nat) (g : Nat)
+    (h : 3 ≤ ((PoolRace.run inp {} sched).gs g).pc) : ((PoolRace.run inp {} sched).gs g).res = some (inp g) :=
+  PoolRace.result_is_own inp sched g h
+
+/-- the pinned variant: goroutine 0's result reads as goroutine 1's text once the buffer is reused -/
+theorem C12_pool_pinned_overwritten :
+    let inp : Nat → List Nat := fun g => [g + 7]
+    let s := PoolRace.run inp {} [0, 0, 0, 0, 1, 1]
+    (s.gs 0).pc = 4 ∧ PoolRace.readPinned s 0 = some [8] := PoolRace.pinned_overwritten
+
+/-- non-vacuity: an interleaved schedule in which both goroutines finish (sharing no buffer while they overlap) -/
+example : let s := PoolRace.run (fun g => [g + 7]) {} [0, 1, 0, 1, 1, 0, 0, 1]
+    (s.gs 0).pc = 4 ∧ (s.gs 1).pc = 4 ∧ (s.gs 0).res = some [7] ∧ (s.gs 1).res = some [8] ∧ s.bufs.length = 2 := by decide
 
 /-! Non-vacuity: a schedule in which three goroutines all return -/
 example : ((Race.init 3).run (fun g => g + 10) [1, 0, 2, 1, 0, 2]).res.length = 3 := by decide
